@@ -74,7 +74,6 @@ vf_ini_line_wf(const ini_line_t *l) {
 
 static inline int
 vf_ini_wf(const ini_t *ini) {
-	size_t i, j;
 
 	if (ini->lines_count > ini->lines_allocated)
 		return (0);
@@ -87,16 +86,25 @@ vf_ini_wf(const ini_t *ini) {
 	    __CPROVER_OBJECT_SIZE(ini->lines) < ini->lines_allocated * sizeof(ini_line_p))
 		return (0);
 #endif
-	for (i = 0; i < ini->lines_count; i ++) {
-		if (ini->lines[i] == NULL)
-			continue;
-		if (!vf_ini_line_wf(ini->lines[i]))
-			return (0);
-		for (j = 0; j < i; j ++) { /* records are not shared between entries */
-			if (ini->lines[j] == ini->lines[i])
-				return (0);
-		}
-	}
+	/* unrolled (no loops: usable together with loop contracts); stores of the harnesses
+	 * have at most VF_INI_MAXL_AFTER = 6 lines */
+	if (ini->lines_count > 6)
+		return (0);
+#define VF_INI_WF_ENTRY(i)							\
+	if ((i) < ini->lines_count && ini->lines[(i)] != NULL &&		\
+	    !vf_ini_line_wf(ini->lines[(i)]))					\
+		return (0);
+#define VF_INI_WF_DISTINCT(i, j) /* records are not shared between entries */	\
+	if ((j) < ini->lines_count && ini->lines[(i)] != NULL &&		\
+	    ini->lines[(i)] == ini->lines[(j)])					\
+		return (0);
+	VF_INI_WF_ENTRY(0) VF_INI_WF_ENTRY(1) VF_INI_WF_ENTRY(2)
+	VF_INI_WF_ENTRY(3) VF_INI_WF_ENTRY(4) VF_INI_WF_ENTRY(5)
+	VF_INI_WF_DISTINCT(0, 1) VF_INI_WF_DISTINCT(0, 2) VF_INI_WF_DISTINCT(0, 3)
+	VF_INI_WF_DISTINCT(0, 4) VF_INI_WF_DISTINCT(0, 5) VF_INI_WF_DISTINCT(1, 2)
+	VF_INI_WF_DISTINCT(1, 3) VF_INI_WF_DISTINCT(1, 4) VF_INI_WF_DISTINCT(1, 5)
+	VF_INI_WF_DISTINCT(2, 3) VF_INI_WF_DISTINCT(2, 4) VF_INI_WF_DISTINCT(2, 5)
+	VF_INI_WF_DISTINCT(3, 4) VF_INI_WF_DISTINCT(3, 5) VF_INI_WF_DISTINCT(4, 5)
 	return (1);
 }
 
@@ -207,6 +215,61 @@ vf_ini_spec_lookup(const ini_t *ini, const uint8_t *sect, size_t sect_n,
 	    vf_ini_spec_sect_find(ini, sect, sect_n, icase), name, name_n, icase));
 }
 
+/* ---------------------------------------------- postconditions of the lookups ---- */
+/* Each predicate evaluates the model ONCE and states everything the property demands of
+ * the call's results (used in the ensures clauses and as native replay oracle). */
+
+/* ini_sect_enum: next section line in file order from the (normalised) cursor */
+static inline int
+vf_ini_post_sect_enum(const ini_t *ini, size_t off_in, int ret, const size_t *sect_off,
+    const uint8_t *const *sect_name, const size_t *sect_name_size) {
+	size_t m;
+
+	if (ini == NULL || sect_off == NULL)
+		return (ret == EINVAL);
+	m = vf_ini_spec_sect_next(ini, VF_INI_NORM(ini, off_in));
+	if (m == INI_OFFSET_INVALID)
+		return (ret == ENOENT);
+	return (ret == 0 && (*sect_off) == m &&
+	    (sect_name == NULL || (*sect_name) == ini->lines[m]->name) &&
+	    (sect_name_size == NULL || (*sect_name_size) == ini->lines[m]->name_size));
+}
+
+/* ini_sect_val_enum: next value line of the section, never beyond the next section */
+static inline int
+vf_ini_post_val_enum(const ini_t *ini, size_t sect_off, size_t off_in, int ret,
+    const size_t *val_off, const uint8_t *const *val_name, const size_t *val_name_size,
+    const uint8_t *const *val, const size_t *val_size) {
+	size_t m;
+
+	if (ini == NULL || val_off == NULL)
+		return (ret == EINVAL);
+	m = vf_ini_spec_val_next(ini, sect_off, off_in);
+	if (m == INI_OFFSET_INVALID)
+		return (ret == ENOENT);
+	return (ret == 0 && (*val_off) == m &&
+	    (val_name == NULL || (*val_name) == ini->lines[m]->name) &&
+	    (val_name_size == NULL || (*val_name_size) == ini->lines[m]->name_size) &&
+	    (val == NULL || (*val) == ini->lines[m]->val) &&
+	    (val_size == NULL || (*val_size) == ini->lines[m]->val_size));
+}
+
+/* ini_val_get / ini_vali_get: ordered-map lookup */
+static inline int
+vf_ini_post_val_get(const ini_t *ini, const uint8_t *sect, size_t sect_n,
+    const uint8_t *name, size_t name_n, int icase, int ret,
+    const uint8_t *const *val, const size_t *val_size) {
+	size_t m;
+
+	if (ini == NULL || val == NULL || val_size == NULL)
+		return (ret == EINVAL);
+	m = vf_ini_spec_lookup(ini, sect, sect_n, name, name_n, icase);
+	if (m == INI_OFFSET_INVALID)
+		return (ret == ENOENT);
+	return (ret == 0 && (*val) == ini->lines[m]->val &&
+	    (*val_size) == ini->lines[m]->val_size);
+}
+
 /* size of the generated text: every stored line followed by CR LF */
 static inline size_t
 vf_ini_spec_text_size(const ini_t *ini) {
@@ -229,6 +292,74 @@ vf_ini_spec_text_off(const ini_t *ini, size_t k) {
 			sum += ini->lines[i]->data_size + 2;
 	}
 	return (sum);
+}
+
+/* ini_buf_calc_size: the size ini_buf_gen will write */
+static inline int
+vf_ini_post_calc_size(const ini_t *ini, int ret, const size_t *file_size) {
+
+	if (ini == NULL || file_size == NULL)
+		return (ret == EINVAL);
+	return (ret == 0 && (*file_size) == vf_ini_spec_text_size(ini));
+}
+
+/*
+ * Ghost state of the serialisation contracts (written by the harness before the call,
+ * read by the ensures clause and by the loop invariants of loops/ini_gen.json, which may
+ * not call functions):
+ *   vf_ini_pref[i]   offset of line i in the generated text (= sum over earlier lines of
+ *                    data_size + 2); vf_ini_pref[lines_count] = size of the whole text
+ *   vf_ini_gk, vf_ini_gj, vf_ini_gbyte, vf_ini_gchk
+ *                    ghost position: byte gj of line gk followed by CR LF, i.e. the text
+ *                    byte at vf_ini_pref[gk] + gj has to be gbyte (gchk: position exists)
+ */
+size_t	vf_ini_pref[VF_INI_MAXL_AFTER + 2];
+size_t	vf_ini_gk, vf_ini_gj;
+uint8_t	vf_ini_gbyte;
+int	vf_ini_gchk;
+
+static inline void
+vf_ini_ghost_setup(const ini_t *ini, size_t k, size_t j) {
+
+#define VF_INI_PREF_STEP(i)							\
+	vf_ini_pref[(i) + 1] = vf_ini_pref[(i)] +				\
+	    (((i) < ini->lines_count && ini->lines[(i)] != NULL) ?		\
+	    (ini->lines[(i)]->data_size + 2) : 0);
+	vf_ini_pref[0] = 0;
+	VF_INI_PREF_STEP(0) VF_INI_PREF_STEP(1) VF_INI_PREF_STEP(2)
+	VF_INI_PREF_STEP(3) VF_INI_PREF_STEP(4) VF_INI_PREF_STEP(5)
+	vf_ini_pref[7] = vf_ini_pref[6];
+	vf_ini_gk = k;
+	vf_ini_gj = j;
+	vf_ini_gchk = 0;
+	vf_ini_gbyte = 0;
+	if (k < ini->lines_count && ini->lines[k] != NULL &&
+	    j < ini->lines[k]->data_size + 2) {
+		vf_ini_gchk = 1;
+		vf_ini_gbyte = (j < ini->lines[k]->data_size) ? ini->lines[k]->data[j] :
+		    ((j == ini->lines[k]->data_size) ? 0x0d : 0x0a);
+	}
+}
+
+/* ini_buf_gen: when the text fits, exactly text_size bytes are written and reported, and
+ * the ghost byte (any byte of any line, or of its CR LF) stands at its offset; when it does
+ * not fit the call fails and reports no more than the capacity.  (That no byte at index >=
+ * buf_size is touched is the assigns clause, checked against the exact-size destination.) */
+static inline int
+vf_ini_post_gen(const ini_t *ini, const uint8_t *buf, size_t buf_size, int ret,
+    const size_t *buf_size_ret) {
+	size_t need;
+
+	if (ini == NULL || buf == NULL || buf_size == 0 || buf_size_ret == NULL)
+		return (ret == EINVAL);
+	need = vf_ini_spec_text_size(ini);
+	if (need > buf_size)
+		return (ret != 0 && ret != EINVAL && (*buf_size_ret) <= buf_size);
+	if (ret != 0 || (*buf_size_ret) != need)
+		return (0);
+	if (vf_ini_gchk)
+		return (buf[vf_ini_spec_text_off(ini, vf_ini_gk) + vf_ini_gj] == vf_ini_gbyte);
+	return (1);
 }
 
 /* ------------------------------------------------------------ text model ---- */
@@ -340,6 +471,35 @@ vf_ini_line_equiv(const ini_line_t *a, const ini_line_t *b) {
 			return (0);
 	}
 	return (1);
+}
+
+/* ini_buf_parse: one record per text line appended in order; record k (ghost index
+ * vf_ini_gk, any k) carries exactly the bytes of text line k and the classification the
+ * table prescribes, with name/val pointing inside the record; an error return (out of
+ * memory) leaves a well-formed store */
+static inline int
+vf_ini_post_parse(const ini_t *ini, size_t old_count, const uint8_t *buf, size_t n, int ret) {
+	size_t st, ln, j;
+	const ini_line_t *l;
+
+	if (buf == NULL)
+		return (ret == EINVAL && ini->lines_count == old_count);
+	if (!vf_ini_wf(ini))
+		return (0);
+	if (ret != 0)
+		return (ret == ENOMEM && ini->lines_count >= old_count);
+	if (ini->lines_count != old_count + vf_ini_text_line_count(buf, n))
+		return (0);
+	if (!vf_ini_text_line(buf, n, vf_ini_gk, &st, &ln))
+		return (1);
+	l = ini->lines[old_count + vf_ini_gk];
+	if (l == NULL || l->data_size != ln)
+		return (0);
+	for (j = 0; j < ln; j ++) {
+		if (l->data[j] != buf[st + j])
+			return (0);
+	}
+	return (vf_ini_line_canonical(l));
 }
 
 /* ------------------------------------------------- symbolic store builder ---- */
